@@ -286,6 +286,8 @@ async def execute(gen, ops, w: SockWorld, run: Run, counters=None):
             (w.on_connect_hooks if o == "on_connect_send" else w.on_disconnect_hooks).append(hook)
         elif o == "odd_subs":
             w.add_odd_subscribers()
+        elif o == "sync_raise":
+            w.add_sync_raising_subscribers(op[1])
         elif o == "slow_conn":
             # the next connected=True notification takes op[1] seconds in a subscriber
             w.conn_delays.append(op[1])
